@@ -3,6 +3,8 @@ C10 — property theorems.  All statements are for every integer type `t = (bits
 every base `2..36`, every value of the type, every buffer / input string.
 -/
 import TetlProofs.C10.Parse
+import TetlProofs.C10.Strto
+import TetlProofs.C10.SpecMathlib
 namespace Tetl.C10.Props
 open Tetl Tetl.C10
 
@@ -219,5 +221,80 @@ theorem round_trip (t : IntTy) (h8 : 8 ≤ t.bits) (v : Int) (hv : t.inRange v =
 
 example : toChars ⟨32, true⟩ (-255) (List.replicate 3 0) 16 = .ok (.ok [45, 102, 102] 3) := by rfl
 example : fromChars ⟨32, true⟩ [45, 102, 102] 16 = .ok (.ok (-255) 3) := by rfl
+
+/-! ## the `strto*` / `sto*` / `ato*` family
+
+`strtol`, `strtoll`, `strtoul`, `strtoull`, `stoi` … `stoull` are `to_integer` with white-space
+skipping on the C string / view; the reference is the C grammar `Spec.strto` (sign `+`/`-`, `0x`,
+base 0, saturation + `ERANGE`, negation in the unsigned type).  The four excluded input classes are
+the recorded findings F-C10-cstdlib-plus-sign, -base-prefix, -range and F-C10-strtoul-minus
+(base 0 is outside `2 ≤ base`: F-C10-cstdlib-base-zero). -/
+
+/-- value and end pointer / `*pos` equal the C library's for every text outside the four classes -/
+theorem strto_eq_partial (t : IntTy) (h8 : 8 ≤ t.bits) (s : List Nat) (hbytes : ∀ c ∈ s, c < 256)
+    (b : Nat) (hb : 2 ≤ b ∧ b ≤ 36)
+    (h1 : Spec.plusSign s = false) (h2 : Spec.basePrefix s b = false)
+    (h3 : Spec.unsignedMinus t s = false) (h4 : (Spec.strto t s b).erange = false) :
+    strto t s b = .ok ((Spec.strto t s b).value, (Spec.strto t s b).endPos) := by
+  unfold strto
+  rw [toInteger_eq t h8 true s hbytes b hb]
+  obtain ⟨hv, he⟩ := strto_spec_eq t s b hb h1 h2 h3 h4
+  simp only [ok_bind, hv, he]
+
+/-- non-vacuity: `"  -7fz"` in base 16 as `long` satisfies the four hypotheses -/
+example : Spec.plusSign [32, 32, 45, 55, 102, 122] = false ∧ Spec.basePrefix [32, 32, 45, 55, 102, 122] 16 = false ∧
+    Spec.unsignedMinus ⟨64, true⟩ [32, 32, 45, 55, 102, 122] = false ∧
+    Spec.strto ⟨64, true⟩ [32, 32, 45, 55, 102, 122] 16 = ⟨-127, 5, false⟩ := by
+  refine ⟨by rfl, by rfl, by rfl, by rfl⟩
+
+/-- `atoi`/`atol`/`atoll`: the value of `strtol(str, nullptr, 10)` outside the same classes -/
+theorem ato_eq_partial (t : IntTy) (h8 : 8 ≤ t.bits) (s : List Nat) (hbytes : ∀ c ∈ s, c < 256)
+    (h1 : Spec.plusSign (cstrOf s) = false) (h3 : Spec.unsignedMinus t (cstrOf s) = false)
+    (h4 : (Spec.strto t (cstrOf s) 10).erange = false) :
+    ato t s = .ok (Spec.strto t (cstrOf s) 10).value := by
+  unfold ato
+  have hb' : ∀ c ∈ cstrOf s, c < 256 := fun c hc => hbytes c ((List.takeWhile_sublist _).subset hc)
+  have h2 : Spec.basePrefix (cstrOf s) 10 = false := by simp [Spec.basePrefix]
+  have h := toInteger_eq t h8 true (cstrOf s) hb' 10 (by omega)
+  have e : ((10 : Nat) : Int) = (10 : Int) := rfl
+  rw [e] at h
+  rw [h]
+  obtain ⟨hv, _⟩ := strto_spec_eq t (cstrOf s) 10 (by omega) h1 h2 h3 h4
+  simp only [ok_bind, hv]
+
+example : ato ⟨32, true⟩ [32, 45, 49, 50, 120, 0, 57] = .ok (-12) := by rfl
+
+/-- each excluded class contains an input on which the model (= the code) and the C grammar differ -/
+theorem strto_plus_counterexample :
+    Spec.plusSign [32, 43, 49, 50] = true ∧ strto ⟨64, true⟩ [32, 43, 49, 50] 10 = .ok (0, 0) ∧
+    Spec.strto ⟨64, true⟩ [32, 43, 49, 50] 10 = ⟨12, 4, false⟩ := by
+  refine ⟨by rfl, by rfl, by rfl⟩
+
+theorem strto_prefix_counterexample :
+    Spec.basePrefix [48, 120, 49, 102] 16 = true ∧ strto ⟨64, true⟩ [48, 120, 49, 102] 16 = .ok (0, 1) ∧
+    Spec.strto ⟨64, true⟩ [48, 120, 49, 102] 16 = ⟨31, 4, false⟩ := by
+  refine ⟨by rfl, by rfl, by rfl⟩
+
+theorem strto_range_counterexample :
+    (Spec.strto ⟨32, true⟩ [57, 57, 57, 57, 57, 57, 57, 57, 57, 57, 57] 10).erange = true ∧
+    strto ⟨32, true⟩ [57, 57, 57, 57, 57, 57, 57, 57, 57, 57, 57] 10 = .ok (0, 0) ∧
+    Spec.strto ⟨32, true⟩ [57, 57, 57, 57, 57, 57, 57, 57, 57, 57, 57] 10 = ⟨2147483647, 11, true⟩ := by
+  refine ⟨by rfl, by rfl, by rfl⟩
+
+theorem strto_minus_counterexample :
+    Spec.unsignedMinus ⟨64, false⟩ [45, 49] = true ∧ strto ⟨64, false⟩ [45, 49] 10 = .ok (0, 0) ∧
+    Spec.strto ⟨64, false⟩ [45, 49] 10 = ⟨18446744073709551615, 2, false⟩ := by
+  refine ⟨by rfl, by rfl, by rfl⟩
+
+/-! ## the reference itself -/
+
+/-- the digit list of the spec is the standard positional representation (Mathlib `Nat.digits`,
+    which is least significant first) -/
+theorem spec_digits_standard (b : Nat) (hb : 2 ≤ b) (n : Nat) :
+    Spec.digits b n = (Nat.digits b n).reverse := digits_eq_natDigits hb n
+
+/-- the value function of the spec inverts the digit list of the spec -/
+theorem spec_value_of_digits (b : Nat) (hb : 2 ≤ b ∧ b ≤ 36) (n : Nat) :
+    Spec.valueOf b ((Spec.digits b n).map Spec.digitChar) = n := valueOf_digits hb n
 
 end Tetl.C10.Props
